@@ -316,3 +316,22 @@ Definition crash (s : st) (q : N) : st := on_disk s (map_last (cut_seq q) (wal_f
 Definition crash_torn (s : st) (n : nat) : st := on_disk s (map_last (firstn n) (wal_files s)).
 
 Definition recover (s : st) : st := reopen s.
+
+(* ---------- log retention (C02, finding D20) ---------- *)
+(* WAL.ManageRetention as Primary.maybeManageWALRetention calls it (MinSequenceKeep = the lowest
+   acknowledged sequence number, no count limit; the age limit is off in the harness): every log
+   file but the current one that holds entries and whose highest sequence number is below
+   [acked] is deleted (a file without entries has no bounds and is kept).  Whether the entries
+   of the file have reached an SSTable is not consulted. *)
+Definition file_max (f : list wentry) : N := fold_left (fun m e => N.max m (w_seq e)) f 0.
+
+Definition retention_keeps (acked : N) (f : list wentry) : bool :=
+  match f with [] => true | _ => negb (file_max f <? acked) end.
+
+Definition retain (acked : N) (s : st) : st :=
+  if acked =? 0 then s else
+  upd_wal s (wal_next s)
+    (match rev (wal_files s) with
+     | [] => []
+     | cur :: older => rev (filter (retention_keeps acked) older) ++ [cur]
+     end).
